@@ -1,4 +1,5 @@
 """C04 — a reported success identifies exactly where and what was written."""
+import json
 
 
 def run(c):
@@ -30,13 +31,21 @@ def run(c):
     c.assume("the broker model appends what it decodes at base + OffsetDelta (record batches), at consecutive offsets (plain message sets, "
              "magic-0 wrappers) or at base + relative offset (magic-1 wrappers, KIP-31); RequiredAcks = NoResponse (no offset is ever "
              "known) and ErrDuplicateSequenceNumber answers (success without an offset) are outside the property's hypothesis")
+    if c.replay:
+        # a replay file names the seed and tier of the run that found the failing input: the generators are a function of
+        # the seed (the e2e corpus, incl. the steered chaser witness, runs first whatever the seed), so that run is repeated
+        try:
+            r = json.load(open(c.replay))
+            c.seed, c.tier = int(r.get("seed", c.seed)), r.get("tier", c.tier)
+        except Exception:
+            pass
     if not c.coq_make(dirs=["C04"]):
         return
     c.coq_properties()
     b = c.go_build("c04corr")
     if not b:
         return
-    n = 330 if c.tier == "quick" else 12000
+    n = 600 if c.tier == "quick" else 12000
     rc, out = c.run([b, "-out", c.build, "-seed", str(c.seed), "-n", str(n)], timeout=170 if c.tier == "quick" else 3000)
     if rc != 0:
         c.break_("corr", "c04corr harness run failed", out)
